@@ -169,6 +169,7 @@ func runC20(c *Check) {
 
 	c.Rule("C20.NILKEY", func() {
 		na := newNilAnalysis(c)
+		na.strictMap = true
 		fs, n := na.Findings()
 		nexc := 0
 		for _, f := range fs {
